@@ -16,9 +16,9 @@ CLAIMED = {
 
 CLAIMED['C14'] = {
     'engines': 'ZX',
-    'technique': 'symbolic execution of the real compare_version / Timeframe code over version strings with symbolic digits (regex model), oracle = component-wise numeric order',
+    'technique': 'symbolic execution of the real compare_version / Timeframe code and of the availability filter of get_recommendations over version strings with symbolic digits (regex model), oracle = component-wise numeric order',
     'text': 'For all version strings of the listed shapes (components x digits, every digit value) and each product, z3 shows that the verdict equals the '
-            'component-wise numeric order, is antisymmetric and transitive, and that the compatibility time frame takes numeric min/max.',
+            'component-wise numeric order, is antisymmetric and transitive, that the compatibility time frame takes numeric min/max, and that the real recommendation pass treats a synthetic row as available exactly when server version >= first version.',
     'note': 'Bounded by version shapes in props/c14.py; regex engine replaced by a backtracking model validated per path; leading zeros and non-numeric versions outside.',
 }
 CLAIMED['C16'] = {
@@ -51,7 +51,7 @@ CLAIMED['C05'] = {
     'engines': 'ZX',
     'technique': 'symbolic execution of Policy.create -> Policy(policy_data) -> evaluate over peers with symbolic names/sizes; single-perturbation drift harnesses; finite exhaustive run over the built-in table',
     'text': 'For every peer within the bounds (names over the whole RFC 4251 alphabet, sizes of the listed digit counts, both roles) z3 shows the generated '
-            'policy loads, reproduces every field, passes on the same peer, and fails naming the field for every single-position perturbation; an arbitrary '
+            'policy loads, reproduces every field, passes on the same peer (also with empty name-lists), and fails naming the field for every single-position perturbation; an arbitrary '
             'built-in-shaped policy and every current built-in pass on the peer mirrored from them.',
     'note': 'json replaced by a token-preserving stub in the symbolic run (real json in the per-path pristine run); -M file writing outside.',
 }
@@ -60,7 +60,7 @@ CLAIMED['C03'] = {
     'engines': 'ZX',
     'technique': 'symbolic execution of output_algorithm / build_struct / algorithm_lookup / output() on an arbitrary table row with symbolic notes and on symbolic unknown and gss-* names; three views compared against the row by z3',
     'text': 'For an ARBITRARY row of the documented shape (absent/empty/1-2 notes per level with symbolic texts, eight version forms) z3 shows text notes == JSON notes == '
-            'lookup notes == row content, table unchanged, independent of padding/batch/verbose/prior status; symbolic unknown names are flagged in text and JSON and never '
+            'lookup notes == row content (also for a row whose NAME is symbolic over both letter cases, digits and punctuation), table unchanged, independent of padding/batch/verbose/prior status; symbolic unknown names are flagged in text and JSON and never '
             'rendered good; gss-<base>-<token> uses the wildcard row in text and JSON; a known name keeps its notes at every position among symbolic neighbours in both roles.',
     'note': 'Note texts are 1 symbolic char, names <=3 symbolic chars (props/c03.py META); json.dumps captured, its text rendering trusted; rows of the real table have the quantified shape by C17.',
 }
@@ -69,7 +69,8 @@ CLAIMED['C01'] = {
     'technique': 'symbolic execution of SSH2_Kex.parse on an independently encoded KEXINIT and of the real output()/build_struct on peers with symbolic names; all 2^64 SSH-1 mask pairs through the decoder',
     'text': 'For all name-lists within the bounds z3 shows: wire -> ten lists field by field; text report and JSON document list per category exactly the advertised '
             'non-empty names in order (unknown symbolic names, table names, duplicates, empty lists), compression and banner as sent, role key; SSH-1 masks decode to '
-            'exactly the set bits and are shown in text and JSON.',
+            'exactly the set bits and are shown in text and JSON; a name of arbitrary (non-UTF-8) bytes is never shortened and leaves its neighbours intact; a client audit '
+            'shows the same advertised direction in text and JSON.',
     'note': 'Bounded list/name lengths (props/c01.py META); client-to-server lists are not reported by the tool (documented source is server-to-client); json.dumps captured.',
 }
 
@@ -84,10 +85,11 @@ CLAIMED['C15'] = {
     'engines': 'ZX',
     'technique': 'symbolic execution of two/three renderings of the same peer under symbolic option vectors and of OutputBuffer call sequences; equality of status/findings and the subsequence property decided per path',
     'text': 'For an arbitrary row with symbolic notes and a symbolic neighbour, all batch/verbose pairs and minimum levels: status identical, findings identical at level info, '
-            'a higher level yields a subsequence that keeps every line at or above it; JSON notes == text findings for table-known names, one JSON document; OutputBuffer keeps '
+            'a higher level yields a subsequence that keeps every line at or above it; JSON notes == text findings for table-known names (also for one name in two categories), one JSON document; '
+            'the real main() with -j/-jj under symbolic -v/-b/-l prints exactly one JSON document and both forms parse to the same value; OutputBuffer keeps '
             'exactly the calls at or above the level.',
-    'note': 'Sub-clauses NOT addressable by this technique and excluded from the claim: byte-identity under different PYTHONHASHSEED values (no symbolic model of CPython hashing) and '
-            'compact-vs-indented JSON equality (json library, C code). Colours disabled in harnesses.',
+    'note': 'Sub-clause NOT addressable by this technique and excluded from the claim: byte-identity under different PYTHONHASHSEED values (no symbolic model of CPython hashing). '
+            'Compact-vs-indented equality is checked on the concrete documents of each explored path (json library trusted). Colours disabled in harnesses.',
 }
 
 CLAIMED['C04'] = {
@@ -105,7 +107,7 @@ CLAIMED['C13'] = {
     'text': 'For every version of the listed shapes of each recognised product (and unrecognised/no software), four advertised server sets plus a symbolic unknown cipher, z3 explores '
             'all version-dependent paths of the real pass over the whole current table: removals are advertised and rated; rated-and-known algorithms are recommended for removal; '
             'critical iff failure; additions are clean, unadvertised, not cert/sk/pseudo and available; nothing twice; no additions for unrecognised software.',
-    'note': 'Advertised sets are concrete (4 sets), versions symbolic; relies on C14 (order) and C03 (ratings == rows); <10 warnings per row checked over the table; known finding: gss-* never recommended for removal.',
+    'note': 'Advertised sets are concrete (4 sets), versions symbolic; relies on C14 (order) and C03 (ratings == rows); <10 warnings per row checked over the table.',
 }
 
 CLAIMED['C17'] = {
@@ -122,8 +124,8 @@ CLAIMED['C18'] = {
     'technique': 'symbolic execution of parse_host_and_port, process_commandline (argparse stubbed, option values symbolic), SSH_Socket._resolve/connect under an arbitrary resolver answer, and the target labels',
     'text': 'For every spelling within the bounds (symbolic host characters, IPv6-like groups, port digits) z3 shows the parsed pair equals the spelling\'s meaning; command line and '
             'targets file yield exactly those pairs, ports outside 1..65535 are rejected before any socket exists; for every resolver answer of <=3 entries and every preference '
-            'only requested families are dialled, in order, with exactly (host, port); text and JSON labels denote the same pair.',
-    'note': 'argparse replaced by a stub returning the declared options; OS resolver replaced by FakeNet; label obligation uses 4 concrete host classes; known finding: -64 order.',
+            'only requested families are dialled, in order, with exactly (host, port); text and JSON labels denote the same pair; the real main() resolves and dials, in target order, exactly the targets as written (command line incl. -p with host:port / [IPv6], targets files mixing line forms).',
+    'note': 'argparse replaced by a stub returning the declared options; OS resolver replaced by FakeNet; label obligation uses 4 concrete host classes; O5 runs the real main() from the (stubbed) option namespace to the dialled endpoint.',
 }
 
 CLAIMED['C11'] = {
@@ -136,11 +138,11 @@ CLAIMED['C11'] = {
 }
 CLAIMED['C12'] = {
     'engines': 'ZX',
-    'technique': 'symbolic execution of the real GEXTest.run against a server model whose moduli set is a symbolic 9-bit have-set (three selection styles), of send_init_gex/get_dh_modulus_size on moduli of exact bit length, and of the OpenSSH-2048 post-processing',
-    'text': 'For ALL 512 subsets of the nine standard sizes x 3 monotone selection styles x sha1/sha256 x OpenSSH/other: recorded size == smallest modulus handed out over the fixed '
+    'technique': 'symbolic execution of the real GEXTest.run against a server model whose moduli set is a symbolic 9-bit have-set (four selection styles), of send_init_gex/get_dh_modulus_size on moduli of exact bit length, and of the OpenSSH-2048 post-processing',
+    'text': 'For ALL 512 subsets of the nine standard sizes x 4 monotone selection styles (strict, round-up, OpenSSH fallback, nearest-size with out-of-range replies) x sha1/sha256 x OpenSSH/other: recorded size == smallest modulus handed out over the fixed '
             'probe sequence (OpenSSH 2048: the follow-up reply plus note), failure < 2048, warning 2048..3071, nothing from 3072, sha1 keeps a failure, <= 9 probes, no other row '
             'touched; measured size == bit length for all moduli of the listed bit lengths; note/suppression iff OpenSSH and 2048 and sha256 advertised.',
-    'note': 'GEXTest._send_init replaced by the symbolic server model; non-monotone servers outside (property quantifies over monotone policies); randrange/pow stubbed.',
+    'note': 'the DH group object (and in the Loop variant GEXTest._send_init) replaced by the symbolic server model, LoopReal runs the real _send_init/reconnect; non-monotone servers outside (property quantifies over monotone policies); randrange/pow stubbed.',
 }
 
 CLAIMED['C19'] = {
@@ -148,14 +150,14 @@ CLAIMED['C19'] = {
     'technique': 'symbolic execution of the real probe drivers and of DHEat._dh_rate_test with socket/select/time replaced by symbolic models: the clock is a solver variable (arbitrary non-decreasing instants), every per-connection outcome vector is explored',
     'text': 'For all outcome vectors within the bounds: host-key phase opens at most one connection per advertised probed type, never two at once, one KEXINIT and one key-exchange '
             'request per connection; GEX phase <= 9 connections per algorithm, one request each, all closed; audit() runs the rate check exactly when not skipped with limits '
-            '(1.5 s, 38, 3), never the DoS features, and closes every socket; the rate-check loop under a symbolic clock keeps concurrent sockets <= limit, attempts <= max + '
+            '(1.5 s, 38, 3), never the DoS features, closes every socket and retries over SSH-1 at most once whatever each connection answers; the rate-check loop under a symbolic clock keeps concurrent sockets <= limit, attempts <= max + '
             'concurrent, closes everything and terminates.',
     'note': 'Rate loop explored for small parameter values (max 1..2, concurrent 1..2, 0.2 s) and <= 8 select rounds, not for the shipped (38, 3, 1.5 s); select contract: an empty result blocked for the timeout; probe sockets/key-exchange groups are stubs.',
 }
 
 CLAIMED['C07'] = {
     'engines': 'ZX',
-    'technique': 'reduction of the schedule quantifier to two solver-checked lemmas over the real code: a footprint lemma (recording map, symbolic presence pattern of three thread ids) and an inductive worker step on a reused thread (archetype pairs with a symbolic name riding along), plus configuration isolation',
+    'technique': 'reduction of the schedule quantifier to two solver-checked lemmas over the real code: a footprint lemma (recording map, symbolic presence pattern of three thread ids) and an inductive worker step on a reused thread (archetype pairs with a symbolic name riding along), plus configuration isolation and the real main() target loop',
     'text': 'Footprint: every table access of get_db/thread_exit and of all six in-place editors uses only the calling thread\'s key, other threads\' tables unchanged, for every '
             'presence pattern. Step: a worker task that follows any archetype on the same thread renders the next target exactly as a fresh run (status, text, JSON) and leaves no '
             'table behind. Config: a shared policy/configuration is untouched by tasks. Disjoint keys + GIL-atomic dict operations => interleavings commute to sequential histories.',
@@ -165,8 +167,8 @@ CLAIMED['C08'] = {
     'engines': 'ZX',
     'technique': 'symbolic execution of the real main() aggregation loop with symbolic worker results and chosen completion orders, of target_worker_thread under every escape class, and of main()->worker->audit() on a scripted network with one failing target',
     'text': 'For N <= 3 targets with symbolic statuses/texts and every completion order: one block per target, exit status = highest ranked code, JSON stdout = bracketed join; '
-            'the worker returns a pair for every ordinary exception class; with a healthy and a failing target (eight archetypes, both positions) both yield a block in text mode.',
-    'note': 'ThreadPoolExecutor/as_completed replaced by a stub (each task once, chosen order); known findings: SystemExit escapes the worker (sys.exit in the packet reader) and per-target error text is raw inside the JSON array.',
+            'the worker returns a pair for every ordinary exception class; with a healthy and a failing target (ten archetypes, both positions) both yield a block in text mode and one JSON array element naming its target in JSON mode; an unreachable target is a connection error, not an internal error.',
+    'note': 'ThreadPoolExecutor/as_completed replaced by a stub (each task once, chosen order); the two defects first recorded here (SystemExit from the packet reader, raw error text inside the JSON array) are repaired by fix: commits.',
 }
 
 NOT_APPLICABLE = {
